@@ -66,6 +66,8 @@ TlValueOK(e) == LET d == DecOf(e.op, e.ty, HexToBytes(e.hex)) IN
 JudgeTl(e) ==
   First(<< <<"alloc", e.alloc_kb <= AllocBudgetKb(e.size)>>,
            <<"time",  e.ms <= TimeBudgetMs(e.size)>>,
+           \* a returned value must be usable: re-encoding it and reading it (e.use: "" or the first panic) are part of the call
+           <<"use",   e.res = "ok" => e.use = "">>,
            <<"value", (e.res = "ok" /\ e.val) => TlValueOK(e)>> >>)
 
 \* -------------------------------------------------------------- helpers
